@@ -650,6 +650,7 @@ static int
 has_traits_setattro(has_traits_object *obj, PyObject *name, PyObject *value)
 {
     trait_object *trait;
+    int result;
 
     if ((obj->itrait_dict == NULL)
         || ((trait = (trait_object *)dict_getitem(obj->itrait_dict, name))
@@ -661,7 +662,12 @@ has_traits_setattro(has_traits_object *obj, PyObject *name, PyObject *value)
         }
     }
 
-    return trait->setattr(trait, trait, obj, name, value);
+    /* Python code run by the assignment (a validator, a handler) may remove
+       or replace the instance trait: keep it alive until we are done. */
+    Py_INCREF(trait);
+    result = trait->setattr(trait, trait, obj, name, value);
+    Py_DECREF(trait);
+    return result;
 }
 
 /*-----------------------------------------------------------------------------
@@ -864,7 +870,12 @@ has_traits_getattro(has_traits_object *obj, PyObject *name)
              != NULL))
         || ((trait = (trait_object *)dict_getitem(obj->ctrait_dict, name))
             != NULL)) {
-        return trait->getattr(trait, obj, name);
+        /* Python code run by the read (a default value method, a property
+           getter) may remove or replace the instance trait: keep it alive. */
+        Py_INCREF(trait);
+        value = trait->getattr(trait, obj, name);
+        Py_DECREF(trait);
+        return value;
     }
 
     /* Try normal Python attribute access, but if it fails with an
@@ -877,7 +888,10 @@ has_traits_getattro(has_traits_object *obj, PyObject *name)
     PyErr_Clear();
 
     if ((trait = get_prefix_trait(obj, name, 0)) != NULL) {
-        return trait->getattr(trait, obj, name);
+        Py_INCREF(trait);
+        value = trait->getattr(trait, obj, name);
+        Py_DECREF(trait);
+        return value;
     }
 
     return NULL;
@@ -2620,6 +2634,10 @@ setattr_delegate(
         }
 
         if (traitd->delegate_attr_name == NULL) {
+            /* 'delegate' and 'traitd' are borrowed: Python code run by the
+               assignment may replace the delegate, keep both alive. */
+            Py_INCREF(delegate);
+            Py_INCREF(traitd);
             if (traito->flags & TRAIT_MODIFY_DELEGATE) {
                 result =
                     traitd->setattr(traitd, traitd, delegate, daname, value);
@@ -2638,6 +2656,8 @@ setattr_delegate(
                     }
                 }
             }
+            Py_DECREF(traitd);
+            Py_DECREF(delegate);
             Py_DECREF(daname);
 
             return result;
